@@ -2159,7 +2159,13 @@ def _oracle_tran(ctx, inp):
                 r1 = _call(n2p.formulvs, nas, c, p_, kc, False, gset)
                 r2 = _call(n2p.formulvs, nas, p_, sedn, kc, False, gset)
                 if r1[0] == "ok" and r2[0] == "ok":
-                    prod = np.asarray(r1[1]) @ np.asarray(r2[1])
+                    m1_, m2_ = np.asarray(r1[1]), np.asarray(r2[1])
+                    if m1_.ndim == 2 and m2_.ndim == 2 and m1_.shape[1] != m2_.shape[0]:
+                        ctx.fail("formulvs-chain-not-the-product", "ULVS(seup -> sedn) must be ULVS(seup -> p) @ ULVS(p -> sedn): "
+                                 "the inner dimensions of the two factors differ", full_inp, list(ul.shape),
+                                 [list(m1_.shape), list(m2_.shape)])
+                        return
+                    prod = m1_ @ m2_ if m1_.ndim and m2_.ndim else m1_ * m2_
                     if prod.shape != ul.shape or not np.array_equal(prod, ul):
                         ctx.fail("formulvs-chain-not-the-product", "ULVS(seup -> sedn) must be ULVS(seup -> p) @ ULVS(p -> sedn)",
                                  full_inp, ul.tolist(), prod.tolist())
